@@ -21,7 +21,7 @@ from common import run_tlc, tlc_must_pass, printed_json, validate_events, Infra,
 from lib import Lib, Buf, FFT64, NTT120, MASK_NONE, MASK_GENERIC
 import kernels
 import progs
-from props import c02, c10, c13, c14, c16, c17
+from props import c01, c02, c10, c13, c14, c16, c17
 
 LEVEL = "exploration"
 
@@ -186,9 +186,11 @@ def run(chk, replay=None):
             ("reim4 dot products and convolution", c17.drive_arith, (True,)),
             ("numeric conversions", c14.drive, (3, [8, 16] if quick else [1, 4, 8, 16, 64], True)),
             ("q120 products", c10.drive_products, (5, [1, 7, 64] if quick else [1, 7, 64, 1000], 2)),
-            ("dense vector-matrix products under both dispatch configurations, misaligned operands", c02.drive_b, (11, 60 if quick else 600))]
-    res = isolated_many(chk, jobs, timeout=1800, nproc=7)
-    specs = ["DispatchTrace", "LimbLoopsTrace", "PointwiseTrace", "PointwiseTrace", "ConvTrace", "Q120Trace", "VmpTrace"]
+            ("dense vector-matrix products under both dispatch configurations, misaligned operands", c02.drive_b, (11, 60 if quick else 600)),
+            ("polynomial products at the edge of the budget under both dispatch configurations", c01.drive_b,
+             (13, [16, 64, 256], 90 if quick else 600, False))]
+    res = isolated_many(chk, jobs, timeout=1800, nproc=8)
+    specs = ["DispatchTrace", "LimbLoopsTrace", "PointwiseTrace", "PointwiseTrace", "ConvTrace", "Q120Trace", "VmpTrace", "ProductTrace"]
     for d, spec, job in zip(res, specs, jobs):
         if not d:
             continue
